@@ -41,7 +41,7 @@ def params(tier):
     if tier == 'quick':
         return {'examples': 1200, 'wall': 80, 'case_timeout': 30, 'max_steps': 6}
 
-    return {'examples': 30000, 'wall': 1500, 'case_timeout': 60, 'max_steps': 12}
+    return {'examples': 30000, 'wall': 600, 'case_timeout': 60, 'max_steps': 12}
 
 
 def floors(tier):
